@@ -56,6 +56,32 @@ class Components:
         return self.objs[k]
 
 
+_INJ = {}
+
+
+def _injectable(cls):
+    """Subclass of a generator class with a cooperative fault point: the k-th node printed raises UnsupportedError (what
+    unsupported_level=IMMEDIATE does, but at a PRNG-chosen node). Only reused generators are built from it."""
+    if cls not in _INJ:
+        from sqlglot.errors import UnsupportedError
+
+        class Inj(cls):  # no __slots__: gets a __dict__ for the two counters
+            def sql(self, expression, key=None, comment=True):
+                d = self.__dict__
+                at = d.get("_inj_at")
+                if at is not None:
+                    d["_inj_n"] = n = d.get("_inj_n", 0) + 1
+                    if n >= at:
+                        d["_inj_at"] = None
+                        raise UnsupportedError("injected abort at node %d" % n)
+                return super().sql(expression, key, comment)
+
+        Inj.__name__ = cls.__name__
+        Inj.__qualname__ = cls.__qualname__
+        _INJ[cls] = Inj
+    return _INJ[cls]
+
+
 def _level(name):
     import sqlglot
 
@@ -112,7 +138,12 @@ def run_step(step, comps):
                 dl = dialect_obj(write)
                 opts = _gen_opts(step.get("opts"))
                 key = (comp, write, tuple(sorted((step.get("opts") or {}).items())))
-                gen = comps.get("generator", key, lambda: dl.generator(**opts)) if reused else dl.generator(**opts)
+                if reused:
+                    gen = comps.get("generator", key, lambda: _injectable(dl.generator_class)(dialect=dl, **opts))
+                    gen.__dict__["_inj_n"] = 0
+                    gen.__dict__["_inj_at"] = step.get("abort_at")
+                else:
+                    gen = dl.generator(**opts)
                 return ["ok", gen.generate(tree)]
             if op == "transpile":
                 if write is None:
